@@ -373,6 +373,8 @@ class Harness:
                 v = math.inf
             elif v == "-inf":
                 v = -math.inf
+            elif v == "hugeint":
+                v = 10**400  # a finite number of seconds that no float can hold
             rec.trace.append(
                 ("strategy", name, attempt, klassname, prev, remaining, cause, ra, v, cls_ok, h.now())
             )
